@@ -1,6 +1,8 @@
 package core
 
 import (
+	"github.com/jsightapi/jsight-schema-go-library/fs"
+
 	"github.com/jsightapi/jsight-api-go-library/internal/verifrt"
 )
 
@@ -61,4 +63,49 @@ func VerifH_PathParameters() {
 	verifrt.Assert("C13.split.error-iff-bad", (err != nil) == bad)
 	verifrt.Reach("C13.split.accepted-param", len(want) >= 1 && err == nil)
 	verifrt.Reach("C13.split.rejected", err != nil)
+}
+
+func refBefore(prefix string) string {
+	for i := len(prefix) - 1; i >= 0; i-- {
+		if prefix[i] == '/' {
+			return prefix[:i]
+		}
+	}
+	return ""
+}
+
+// VerifH_SimilarPaths (C11, "two paths that differ only in a parameter name"):
+// after a path p1 (from a small menu) has been registered, a path p2 (N symbolic
+// bytes over / { } a b) is refused exactly when the two
+// have a parameter at the same place - the same text before it - under different
+// names; in particular when they differ only in one parameter name. A path is
+// never "similar" to itself.
+func VerifH_SimilarPaths() {
+	n := verifrt.Bound("N")
+	menu := []string{"/a/{a}", "/{a}/b/{b}", "/a/{a}/{b}", "/b", "{b}"}
+	p1 := menu[verifrt.Choice("p1", len(menu))]
+	p2 := verifrt.String("p2", verifrt.Choice("n2", n+1))
+	for i := 0; i < len(p2); i++ {
+		c := p2[i]
+		verifrt.Assume(c == '/' || c == '{' || c == '}' || c == 'a' || c == 'b')
+	}
+	core := NewJApiCore(fs.NewFile("t.jst", ""))
+	pp1, e1 := PathParameters(p1)
+	verifrt.Assume(e1 == nil)
+	pp2, e2 := PathParameters(p2)
+	verifrt.Assume(e2 == nil)
+	verifrt.Assert("C11.similar.first-path-accepted", core.checkSimilarPaths(pp1) == nil)
+	err := core.checkSimilarPaths(pp2)
+	similar := false
+	for _, a := range refPathParams(p1) {
+		for _, b := range refPathParams(p2) {
+			if refBefore(a.prefix) == refBefore(b.prefix) && a.name != b.name {
+				similar = true
+			}
+		}
+	}
+	verifrt.Assert("C11.similar.rejected-iff-similar", (err != nil) == similar)
+	verifrt.Assert("C11.similar.same-path-twice-accepted", p1 != p2 || err == nil)
+	verifrt.Reach("C11.similar.rejected", err != nil)
+	verifrt.Reach("C11.similar.accepted-with-params", err == nil && len(pp1) >= 1 && len(pp2) >= 1)
 }
